@@ -925,6 +925,35 @@ def hand_exhaustive(quick=True):
     return cases
 
 
+def hand_three(quick=True):
+    """two by-itself hand-overs in a row (adapter over adapter over adapter, unbatched): stage 0 gets a
+    source update and is polled not at all / once / to the end, is handed to stage 1 (head/tail/skip),
+    which - possibly still holding the rest of stage 0's burst below it - gets the same treatment and is
+    handed to stage 2"""
+    src = [1, 2, 3]
+    ds = ["PopFront", "PushFront(7)", "Remove(0)", "Insert(0,7)", "Append[7,8]", "Reset[5,6,7,9]", "Truncate(1)"]
+    polls = ("", "p", "D")
+    st1s = ["head:dyninit:2", "tail:dynamic:-", "skip:dyninit:1"]
+    st2s = ["filter:-:255"] if quick else ["filter:-:255", "head:static:5", "filter:-:170"]
+    cases = []
+    for s0 in HAND_STAGE0:
+        for s1 in st1s:
+            for s2 in st2s:
+                for d1 in ds:
+                    n1 = len_after(d1, len(src))
+                    for p1 in polls:
+                        for d2 in ds:
+                            if not ok_in(d2, n1):
+                                continue
+                            for p2 in polls:
+                                evs = (["l0:2"] if s0.endswith("dynamic:-") else []) + ["d:" + d1] + ([p1] if p1 else []) + ["H"]
+                                if s1.endswith("dynamic:-"):
+                                    evs.append("l1:2")
+                                evs += ["d:" + d2] + ([p2] if p2 else []) + ["H", "D", "d:PushBack(4)", "D"]
+                                cases.append("u %s | %s | %s | %s :: %s" % (vec(src), s0, s1, s2, " ; ".join(evs)))
+    return cases
+
+
 def hand_random(rng, n):
     cases = []
     for _ in range(n):
@@ -965,10 +994,20 @@ def hand_random(rng, n):
                     evs.append("D")
             return evs
         evs = block(rng.randrange(0, 8), False) + ["H"] + block(rng.randrange(1, 7), True)
+        stages = "%s | %s" % (s0, s1)
+        if bat == "u" and s1.split(":")[0] in ("head", "tail", "skip") and rng.random() < 0.6:
+            # a second hand-over: single polls of the two-stage stack first (lazy pulls through both levels)
+            mid = []
+            for _ in range(rng.randrange(0, 5)):
+                r = rng.random()
+                mid.append("d:" + one_diff() if r < 0.5 else ("p" if r < 0.8 else ("l1:%d" % rng.randrange(6) if dyn1 else "p")))
+            s2 = rng.choice(["filter:-:255", "filter:-:170", "head:static:3", "skip:static:1", "filter_map:-:85"])
+            evs += mid + ["H"] + [e for e in block(rng.randrange(1, 6), True)]
+            stages += " | " + s2
         if rng.random() < 0.2:
             evs.append("es")
         evs.append("D")
-        cases.append("%s %s | %s | %s :: %s" % (bat, vec(src), s0, s1, " ; ".join(evs)))
+        cases.append("%s %s | %s :: %s" % (bat, vec(src), stages, " ; ".join(evs)))
     return cases
 
 
